@@ -284,6 +284,8 @@ class Facts:
         self.digest = hashlib.sha256(raw.replace(str(j.get('nonce', '')).encode(), b'')).hexdigest()
         self.j = j
         self.path = path
+        from . import inline as _inl
+        self.folded = _inl.fold_unknown_helpers(j, _inl.known_functions())
         self.nonce = j['nonce']
         self.crate = j['crate']
         self.types = j['types']
